@@ -260,6 +260,10 @@ def prefix_family(r, line, ctx):
 # ----------------------------------------------------- shrinking of one op line
 def parse_line(line):
     t = line.split()
+    if t and t[0][0] == "q" and t[0][1:].isdigit():
+        d = parse_line(" ".join(t[1:]))
+        if d is not None: d["q"] = t[0]
+        return d
     op = t[0]
     if op == "sort":
         m, n = int(t[1]), int(t[2]); nums = list(map(int, t[3:]))
@@ -277,6 +281,9 @@ def parse_line(line):
 
 
 def unparse(d):
+    if d.get("q"):
+        c = dict(d); q = c.pop("q")
+        return q + " " + unparse(c)
     P = d["P"]; n = len(P)
     if d["op"] == "sort": return f"sort {d['m']} {n} {flat(P)}".rstrip()
     if d["op"] == "hv": return f"hv {d['m']} {n} {flat([d['ref']])} {flat(P)}".rstrip()
@@ -305,6 +312,7 @@ def shrink_line(line, fails, budget=150):
 
 def classify(ops, res):
     op = ops[0].split()
+    if op[0][0] == "q" and op[0][1:].isdigit(): op = op[1:]
     tag = op[0] + (":" + op[1] + ":" + op[2] if op[0] == "con" else "") + (":m" + op[1] if op[0] in ("sort", "hv") else "")
     if res.crash and op[0] == "ssp" and "HypervolumeSubsetSelection2D::Point" in res.stderr and \
             re.search(r"std::__(unguarded_partition|introsort_loop|insertion_sort|unguarded_linear_insert)", res.stderr):
@@ -412,6 +420,9 @@ def run(ctx):
         for i in range(cnt):
             nmax = 40 if ctx.quick else (300 if (kind == "sort" and i % 6 == 0) else 60)
             l = gen_case(r, kind, nmax, ctx)
+            if kind in ("dom", "sort", "hv", "con", "ssp") and r.chance(1, 5) and not (kind == "sort" and "2243003" in l or "1125899" in l):
+                # dyadic rational coordinates: the C++ gets every coordinate divided by a power of two
+                l = f"q{r.choice([2, 4, 8, 64])} " + l; ctx.hist("rational_coordinates", kind)
             lines.append(l)
             # prefix families (intermediate states of the sweeps): 3-/4-objective hypervolume, 3-D contributions, sorts
             if kind in fam and fam[kind] < (12 if ctx.quick else 60):
@@ -423,7 +434,7 @@ def run(ctx):
         # third arm of the switch: n > 5000 goes back to the divide-and-conquer sort
         P = gen_points(r, 3, 5003, 9, 0, "mix")
         lines.append(f"sort 3 5003 {flat(P)}"); ctx.hist("sort_nds_uses", "dc(n>5000)")
-    for l in lines: ctx.hist("op_mix", l.split()[0])
+    for l in lines: ctx.hist("op_mix", [t for t in l.split() if not (t[0] == "q" and t[1:].isdigit())][0])
     ctx.cov["evaluations"] = len(lines)
     ctx.cov["distinct_nontrivial"] = len({l for l in lines if nontrivial(l)})
     ctx.sample({"op": lines[len(lines) // 2][:200]})
